@@ -37,6 +37,45 @@ FORBIDDEN = [("build_xsi_cache", "self.xsi_cache.clear()", "cold-index-race", "e
              # the in-place pruning fixed by /repo c28ded8
              ("local_names_match", "self.xsi_cache[target_qname].remove(clazz)", "concurrent-prune-value-error", "c28ded8")]
 
+# what XmlContext keeps (slots) and every statement of context.py that stores into it: the model's actions and
+# C14's step functions cover exactly these; anything else is a change the model does not know (fail closed)
+CONFIG_SLOTS = {"attribute_name_generator", "class_type", "element_name_generator", "models_package"}
+STATE_SLOTS = {"cache", "xsi_cache", "sys_modules", "unsupported"}
+EXPECTED_CONTEXT_STORES = {
+    ("reset", "self.cache.clear()"), ("reset", "self.xsi_cache.clear()"), ("reset", "self.unsupported.clear()"),
+    ("reset", "self.sys_modules = 0"), ("build_xsi_cache", "self.xsi_cache = index"),
+    ("build_xsi_cache", "self.sys_modules = len(sys.modules)"),
+    ("build", "self.cache[clazz] = builder.build(clazz, parent_ns)"), ("local_names_match", "self.unsupported.add(clazz)"),
+}
+
+
+def context_state_tie(ck):
+    """static tie: the slots of XmlContext and the statements that store into its state are the modelled ones"""
+    import ast
+    import sched_trace
+    path = os.path.join(common.REPO, "xsdata/formats/dataclass/context.py")
+    tree = ast.parse(open(path, encoding="utf-8").read())
+    slots = None
+    for node in ast.walk(tree):
+        if isinstance(node, ast.ClassDef) and node.name == "XmlContext":
+            for st in node.body:
+                if isinstance(st, ast.Assign) and getattr(st.targets[0], "id", None) == "__slots__":
+                    slots = set(ast.literal_eval(st.value))
+    if slots is None:
+        ck.failure("corr-unmodelled-state", "XmlContext.__slots__ not found: the context may hold state the model does not know",
+                   {"file": path})
+        return
+    extra = slots - CONFIG_SLOTS - STATE_SLOTS
+    if extra:
+        ck.failure("corr-unmodelled-state", f"XmlContext has state the model does not know: slots {sorted(extra)}",
+                   {"slots": sorted(slots)})
+    _, stores = sched_trace.locate_stores(path, exclude=("__init__",))
+    unknown = sorted(set(stores) - EXPECTED_CONTEXT_STORES)
+    if unknown:
+        ck.failure("corr-unmodelled-state", "context.py stores into state of the context in statements the model does not "
+                   f"know: {unknown}", {"unknown": unknown})
+
+
 SUPPORTED_CALLS = ("build", "fetch", "find_type", "find_types", "find_subclass", "find_type_by_fields", "local_names_match", "build_recursive")
 
 
@@ -93,7 +132,12 @@ def run(ck: Check):
                  if n in ("PA", "Leaf", "Own", "Mid", "Tgt", "PB")}
     ops_all = c14.build_ops(ck, fresh_ser, fresh_enc)
     ops = [o for o in ops_all if supported(o)]
+    n_model = len(ops)          # operations the interleaving model covers; the rest only run in the model-free modes
+    extra_tags = ("dec:Holder-der", "odec:Num-abc", "odecs:Num-abc", "oparse:Num-abc", "oparse:UHolder-alpha",
+                  "oparse:UHolder-fail", "oser:CmpintFirst:conv-non", "odecs:CmpintFirst:non-conv", "oparse:Bag-both:native")
+    ops += [o for o in ops_all if o["tag"] in extra_tags]
     by_tag = {o["tag"]: i for i, o in enumerate(ops)}
+    context_state_tie(ck)
     n_index = len(c14.STATIC) + 18      # refined below from the implementation's answer
 
     def gen_runs(n_index):
@@ -123,7 +167,7 @@ def run(ck: Check):
         sets = [[by_tag[t] for t in s if t in by_tag] for s in CLOSED_SETS]
         for k in range(ck.n(200, 20000)):
             mode = r.random()
-            pool = r.choice(sets) if mode < 0.85 else list(range(len(ops)))
+            pool = r.choice(sets) if mode < 0.85 else list(range(n_model))
             if mode >= 0.85:
                 kinds["mixed"] += 1
             nthreads = r.choice([2, 2, 2, 3, 3, 4]) if r.random() < 0.9 else r.randint(5, 16)
@@ -183,11 +227,23 @@ def run(ck: Check):
     free_sets = [[by_tag[t]] * n for t in free_ops if t in by_tag for n in (2, 3)]
     free_sets += [[by_tag[a], by_tag[b]] for a, b in (("ser:WildMid", "parse:WildMid"), ("ser:PA", "parse:PA"),
                                                       ("ser:Holder", "parse:Holder"))]
+    # thread sets with operations outside the interleaving model (bind_best_dataclass, unions, compound fields, lenient
+    # conversion through shared decoder / parser configs): ns-closed by construction, oracle = solo result + unchanged
+    # shared configuration objects
+    trusted_sets = [[by_tag[a], by_tag[b]] for a, b in (
+        ("dec:Holder-der", "odec:Num-abc"), ("odec:Num-abc", "dec:Holder-der"), ("dec:Holder-der", "dec:Holder-der"),
+        ("oparse:UHolder-fail", "oparse:Num-abc"), ("oparse:UHolder-alpha", "oparse:Num-abc"),
+        ("oser:CmpintFirst:conv-non", "oser:CmpintFirst:conv-non"), ("odecs:CmpintFirst:non-conv", "odecs:Num-abc"),
+        ("oparse:Bag-both:native", "oparse:Bag-both:native")) if a in by_tag and b in by_tag]
+    free_sets += trusted_sets
     free_runs, free_guard_case = [], {}
     for fs in free_sets:
         for warm in ([], [by_tag["find_type:Leaf"]]):
-            free_guard_case[(tuple(warm), tuple(fs))] = len(runs)
-            runs.append({"warm": warm, "threads": fs, "schedule": []})
+            if all(t < n_model for t in fs):
+                free_guard_case[(tuple(warm), tuple(fs))] = len(runs)
+                runs.append({"warm": warm, "threads": fs, "schedule": []})
+            else:
+                free_guard_case[(tuple(warm), tuple(fs))] = "trusted"
             for _ in range(ck.n(3, 60)):
                 free_runs.append({"warm": warm, "threads": fs, "seed": r.randrange(1 << 30)})
     kinds["free-line"] = len(free_runs)
@@ -196,17 +252,24 @@ def run(ck: Check):
                  ("parse:WildT-a", "parse:WildT-z"), ("parse:WildMid", "parse:WildMid"), ("ser:WildMid", "ser:WildMid"),
                  ("ser:WildMid", "parse:WildMid"), ("parse:Wild", "parse:Wild"), ("ser:PA", "ser:PA"), ("parse:PA", "ser:PA"),
                  ("ser:Holder", "ser:Holder"), ("jser:PA", "jser:PA")]
+    sys_pairs += [("parse:Holder", "parse:Holder"), ("parse:Holder", "parse:Holder-xsi-Ext"), ("dec-auto:x", "dec-auto:x")]
     sys_runs = []
-    for a, b in sys_pairs:
-        if a in by_tag and b in by_tag:
-            fs = [by_tag[a], by_tag[b]]
-            for warm in ([], [by_tag["find_type:Leaf"]]):
-                if (tuple(warm), tuple(fs)) not in free_guard_case:
+    sys_sets = [([by_tag[a], by_tag[b]], None) for a, b in sys_pairs if a in by_tag and b in by_tag]
+    sys_sets += [(fs, None) for fs in trusted_sets]
+    # a context that remembers an xsi:type substitution (or anything else a method may memoise) from earlier calls
+    sys_sets += [([by_tag["parse:Holder"], by_tag["parse:Holder"]], [by_tag["parse:Holder-xsi-Ext"]]),
+                 ([by_tag["parse:Holder-xsi-Ext"], by_tag["parse:Holder"]], [by_tag["parse:Holder"]])]
+    for fs, warm_ in sys_sets:
+        for warm in ([warm_] if warm_ is not None else [[], [by_tag["find_type:Leaf"]]]):
+            if (tuple(warm), tuple(fs)) not in free_guard_case:
+                if all(t < n_model for t in fs):
                     free_guard_case[(tuple(warm), tuple(fs))] = len(runs)
                     runs.append({"warm": warm, "threads": fs, "schedule": []})
-                sys_runs.append({"warm": warm, "threads": fs, "seed": r.randrange(1 << 30), "max": ck.n(60, 1500)})
+                else:
+                    free_guard_case[(tuple(warm), tuple(fs))] = "trusted"
+            sys_runs.append({"warm": warm, "threads": fs, "seed": r.randrange(1 << 30), "max": ck.n(120, 3000)})
     kinds["systematic-sets"] = len(sys_runs)
-    nproc = ck.n(4, 12)
+    nproc = ck.n(6, 12)
     chunks = [runs[i::nproc] for i in range(nproc)]
     import concurrent.futures as cf
     with cf.ThreadPoolExecutor(max_workers=nproc) as ex:
@@ -232,7 +295,7 @@ def run(ck: Check):
     # ---- Gallina
     classes = [c14.c_class(c14.ALL[c]) if c in c14.ALL else c14.c_ambient(ambient[c]) for c in order]
     defs = [f"Definition W0 : world := mkW {clist(classes, str, 'cdesc')} {outs[0]['modules0']}%N."]
-    for i, o in enumerate(ops):
+    for i, o in enumerate(ops[:n_model]):
         defs.append(f"Definition op_{i} : op := {c14.c_op(o)}.")
     rint = c14.Interner("r_", "res")
     cases, idx = [], []
@@ -288,6 +351,11 @@ def run(ck: Check):
             stats["cold"] += 1
     # forced yield points on every line of models/elements.py
     pos = {i: k for k, i in enumerate(idx)}
+
+    def inside_guard(key):
+        gi = free_guard_case[key]
+        return gi == "trusted" or (gi in pos and bool(summ[pos[gi]] & 16))
+
     stats["free_runs"], stats["free_steps"], stats["free_mismatch_outside_guard"] = len(free_runs), 0, 0
     for fr, out in zip(free_runs, free_res):
         what = f"threads {[ops[t]['tag'] for t in fr['threads']]} after {[ops[t]['tag'] for t in fr['warm']]} (seed {fr['seed']})"
@@ -295,9 +363,11 @@ def run(ck: Check):
             ck.failure("scheduler-timeout", "a forced-yield run did not terminate: " + out["status"] + " " + what, {"run": fr})
             continue
         stats["free_steps"] += out["steps"]
+        if out.get("inst_changed"):
+            ck.failure("instance-attribute-changed", "after a concurrent run a configuration object / attribute of a shared "
+                       "parser, serializer or decoder is not what it was before: " + what, {"run": fr})
         if out["results"] != out["solo"]:
-            gi = free_guard_case[(tuple(fr["warm"]), tuple(fr["threads"]))]
-            if gi in pos and summ[pos[gi]] & 16:
+            if inside_guard((tuple(fr["warm"]), tuple(fr["threads"]))):
                 bad = [k for k, (a, b) in enumerate(zip(out["results"], out["solo"])) if a != b][0]
                 ck.failure("concurrent-difference-inside-guard",
                            "forced yield points on every line of XmlMeta/XmlVar (models/elements.py): a thread's result differs "
@@ -316,13 +386,16 @@ def run(ck: Check):
             ck.failure("scheduler-timeout", "a systematic run did not terminate: " + out["status"] + " " + what, {"run": sr})
             continue
         stats["systematic_schedules"] += out["explored"]
+        if out.get("inst_changed"):
+            ck.failure("instance-attribute-changed", "after a concurrent run a configuration object / attribute of a shared "
+                       f"parser, serializer or decoder is not what it was before: {what}, schedule {out['inst_changed'][0]}",
+                       {"run": sr, "schedules": out["inst_changed"]})
         if out["bad"]:
-            gi = free_guard_case[(tuple(sr["warm"]), tuple(sr["threads"]))]
-            if gi in pos and summ[pos[gi]] & 16:
+            if inside_guard((tuple(sr["warm"]), tuple(sr["threads"]))):
                 b0 = out["bad"][0]
                 ck.failure("concurrent-difference-inside-guard",
-                           "yield points inside the self-mutating methods of XmlMeta/XmlVar (lazily built metadata observed "
-                           f"half-built): {what}, schedule {b0['schedule']}: {b0['results']} vs solo {out['solo']}",
+                           "yield points around every store into shared objects (context, XmlMeta/XmlVar, decoder: lazily built "
+                           f"or temporarily changed state observed): {what}, schedule {b0['schedule']}: {b0['results']} vs solo {out['solo']}",
                            {"run": {"warm": [ops[t]["tag"] for t in sr["warm"]], "threads": [ops[t]["tag"] for t in sr["threads"]]},
                             "bad": out["bad"], "solo": out["solo"], "mutating_methods": outs[0].get("mutators")})
             else:
